@@ -1,6 +1,6 @@
-from rules import wiring as WR
 """C04 - crashes lose no acknowledged data and leave no half-applied write."""
 from rules import shared as S
+from rules import wiring as WR
 LEVEL = "other"
 TRUSTED = ["TB-rustc", "TB-sqlite: a BEGIN IMMEDIATE ... COMMIT is atomic and, in WAL mode with the default synchronous=FULL, durable; recovery replays/discards the WAL correctly"]
 EXPLANATION = ("durability skeleton (the repository's side of the contract): WAL and no weakening pragma, all writes of one operation inside one BEGIN IMMEDIATE..COMMIT on one "
@@ -21,3 +21,6 @@ def run(rep, W, ctx):
     S.s_ack_handler(rep, W, "add_snapshot", "add_snapshot")
     S.c01_key(rep, W)
     S.c11(rep, W)
+    # AddVersion from an unknown client commits twice (create the client, then the operation proper): a crash between the two
+    # is harmless only because the first commit leaves exactly "a client with no versions" (NIL latest), i.e. the request absent
+    S.s_newclient(rep, W)
